@@ -602,6 +602,12 @@ def untok_num(t):
 
 
 def classify(f):
+    c, d = f.case, f.detail or {}
+    if c.get('k') == 'frame' and d.get('exc') in ('ErrorInitIndex',):
+        spec = c['spec']
+        # a hierarchical axis addressed in an order that is not tree-ordered (list key, negative-step slice)
+        if (spec['index']['kind'] == 'ih' and c['rk'][0] in ('list', 'sl')) or (spec['columns']['kind'] == 'ih' and c['ck'][0] in ('list', 'sl')):
+            return 'F71'
     return None
 
 
